@@ -38,9 +38,11 @@ void Arena::init() {
 
 static inline uint64_t xs(uint64_t &s) { s ^= s << 13; s ^= s >> 7; s ^= s << 17; return s; }
 
+extern "C" void __sanitizer_print_stack_trace(void);
 void *Arena::alloc(size_t n, bool zero) {
 	nallocs++;
-	if (fail_at.count(nallocs)) { errno = ENOMEM; return nullptr; }
+	if (!stack_at.empty() && stack_at.count(nallocs)) { fprintf(stderr, "== allocation #%llu (%zu bytes)%s\n", (unsigned long long)nallocs, n, fail_at.count(nallocs) ? " [made to fail]" : ""); __sanitizer_print_stack_trace(); }
+	if (fail_at.count(nallocs)) { if (g_hooks) g_hooks->on_alloc_fail(nallocs); errno = ENOMEM; return nullptr; }
 	size_t need = ((n + 15) & ~(size_t)15) + REDZONE;
 	if (n > cap || cur + REDZONE + need > cap) { exhausted = true; errno = ENOMEM; return nullptr; }
 	size_t off = cur + REDZONE;
